@@ -261,7 +261,12 @@ def _check_closed(case, ctx, rho0, coh):
                 psi_obj.data[:] = numpy.roll(psi0, 1)
             dme = numpy.array(pe.get_DensityMatrixEvolution().data)
         if rwa is not None:
+            # the density-matrix evolution is taken while the state vectors are still in the rotating frame and
+            # converted on its own
+            dmo = pe.get_DensityMatrixEvolution()
             pe.convert_from_RWA(ham2)
+            dmo.convert_from_RWA(ham2)
+            dme = numpy.array(dmo.data)
         pr = ReducedDensityMatrixPropagator(ta, ham2)
         rt = pr.propagate(ReducedDensityMatrix(data=numpy.outer(psi0, psi0.conj())), method="short-exp-%d" % order,
                           Nref=nref)
@@ -275,7 +280,7 @@ def _check_closed(case, ctx, rho0, coh):
     if dme is not None:
         # the density-matrix evolution made from a state-vector evolution is |psi(t)><psi(t)| at every stored time
         ctx.close("closed/statevector-to-densitymatrix-evolution", dme, numpy.einsum("ki,kj->kij", psi, psi.conj()),
-                  rtol=1e-12, scale=1.0, where=tag + ("/psi-object-reused" if case.get("reuse_psi") else ""))
+                  rtol=1e-12, scale=1.0, where=tag + ("/psi-object-reused" if case.get("reuse_psi") and rwa is None else ""))
     Lpsi = -1j * Hprop
     _, tau_psi = orc.truncation_profile(Lpsi, dtr, order, psi0, nsteps)
     _, tau_rho = orc.truncation_profile(L, dtr, order, numpy.outer(psi0, psi0.conj()).reshape(-1), nsteps)
